@@ -309,6 +309,24 @@ def _cases_for(rng: random.Random, u, s, n):
             out.append(_mk("intersection", p, aa, bb, claimed=(aa, bb) != (b, a) or a == b, tags=(kind,)))
     except (ValueError, OverflowError):
         pass
+    # ranges whose ends sit exactly on / next to the period's own first and last day
+    try:
+        lo, hi = O(s), end_ord(u, s, n)
+        if 2 <= lo and hi < dt.date.max.toordinal() - 2:
+            pts = sorted({lo - 1, lo, lo + 1, hi - 1, hi, hi + 1, (lo + hi) // 2})
+            D = lambda o: fmt_date(dt.date.fromordinal(o).timetuple()[:3])
+            pairs = [(a, b) for a in pts for b in pts if a <= b]
+            for a, b in rng.sample(pairs, min(8, len(pairs))):
+                out.append(_mk("intersection", p, D(a), D(b), tags=("edge",)))
+            for a in rng.sample(pts, 3):
+                out.append(_mk("intersection", p, D(a), "-", tags=("edge",)))
+                out.append(_mk("intersection", p, "-", D(a), tags=("edge",)))
+            # one-day and one-unit periods at the edges, for containment
+            for o in rng.sample(pts, 3):
+                q = _tok("day", dt.date.fromordinal(o).timetuple()[:3], 1)
+                out.append(_mk("contains", p, q, tags=("edge",)))
+    except (ValueError, OverflowError):
+        pass
     return out
 
 
